@@ -49,7 +49,9 @@ inductive Pend where
   | jump (origin : Nat) (ins : Insn) (own : List Nat)    -- slot `origin` gets `ins` with the offset filled in
   | andor (both : Bool) (l r : Pend) (own : List Nat)    -- both = (is_and == negative): `target` patches l and r
   | inv (v : Pend) (own : List Nat)
-deriving Repr, Inhabited
+deriving Repr
+
+instance : Inhabited Pend := ⟨.jump 0 ⟨0, 0, 0, 0, 0⟩ []⟩
 
 /-- the `owners` attribute of the comparison object -/
 def Pend.own : Pend → List Nat
@@ -225,5 +227,125 @@ def elabC (env : List VarLoc) : SCond → Except AsmError CObj
     let x ← elabC env a
     let y ← elabC env b
     pure (.andor false x y)
+
+/-! ## statements -/
+
+inductive SStmt where
+  | skip
+  | set (d : Dest) (e : SExpr)
+  | seq (a b : SStmt)
+  | ifThen (c : SCond) (body : SStmt)                  -- `with c: body`
+  | ifElse (c : SCond) (body els : SStmt)              -- `with c as Else: body` / `with Else: els`
+  | jif (c : SCond) (a : SStmt)                        -- `t = jumpIf(c); a; t.target()`
+  | jifElse (c : SCond) (a b : SStmt)                  -- `t = jumpIf(c); a; t.target(); t.Else(); b; t.__exit__()`
+deriving Repr, Inhabited
+
+/-- what `Else()` leaves in the comparison object: `else_origin`, and `invert` of an `AndComparison` -/
+structure ElseSt where
+  pend : Pend
+  elseOrigin : Nat
+  invert : Option Nat
+deriving Repr
+
+/-- `AndComparison.Else`: no retargeting; an unconditional `JMP` at `origin` is remembered for the splice,
+a conditional jump gets `off + 1` -/
+def elseBits (p : Pend) : GenM ElseSt :=
+  match p with
+  | .jump origin _ _ => fun g =>
+    let cur := g.code.getD origin hole
+    if cur.op == Consts.op_JMP then
+      .ok (⟨p, g.code.length, some origin⟩, { g with code := g.code ++ [hole] })
+    else
+      .ok (⟨p, g.code.length, none⟩, { g with code := g.code.set origin { cur with off := cur.off + 1 } ++ [hole] })
+  | _ => fail (.other "unreachable")
+
+/-- `Comparison.Else`: placeholder for the jump over the else block, then `target(True)` -/
+def elseGeneric (p : Pend) : GenM ElseSt := do
+  let eo ← curLen
+  emit hole
+  let p' ← target p true
+  pure ⟨p', eo, none⟩
+
+/-- `Elser.__enter__` -/
+def elseEnter (c : CObj) (p : Pend) : GenM ElseSt :=
+  match c with
+  | .bits _ _ => elseBits p
+  | _ => elseGeneric p
+
+/-- the list surgery of `AndComparison.__exit__`: the else block moves in front of the `JMP` at `inv`, the
+jump over the else block disappears, the JSET in front of it jumps over the moved block and the `JMP` -/
+def spliceCode (code : List Insn) (inv eo : Nat) : List Insn :=
+  let c1 := (code.take inv ++ code.drop (eo + 1) ++ code.drop inv).take (code.length - 1)
+  let j := c1.getD (inv - 1) hole
+  c1.set (inv - 1) { j with off := (c1.length : Int) - eo + 1 }
+
+def spliceIf (inv : Option Nat) (eo : Nat) : GenM Unit :=
+  match inv with
+  | some i => fun g => .ok ((), { g with code := spliceCode g.code i eo })
+  | none => pure ()
+
+/-- `Comparison.__exit__` with `else_origin` set (plus `AndComparison.__exit__`) -/
+def elseExit (e : ElseSt) : GenM Unit := do
+  let n ← curLen
+  setSlot e.elseOrigin ⟨Consts.op_JMP, 0, 0, (n : Int) - e.elseOrigin - 1, 0⟩
+  let o ← getOwners
+  fun g => .ok ((), { g with owners := inter o e.pend.own })
+  spliceIf e.invert e.elseOrigin
+
+/-- `with c: body` — `__enter__` = `compare(True)`, `__exit__` = `target()` -/
+def withThen (c : CObj) (body : GenM Unit) : GenM Unit := do
+  let p ← compare c true
+  body
+  let _ ← target p false
+  pure ()
+
+def withElse (c : CObj) (body els : GenM Unit) : GenM Unit := do
+  let p ← compare c true
+  body
+  let p1 ← target p false
+  let e ← elseEnter c p1
+  els
+  elseExit e
+
+/-- `jumpIf(c)` = `compare(False)` -/
+def jifThen (c : CObj) (a : GenM Unit) : GenM Unit := do
+  let p ← compare c false
+  a
+  let _ ← target p false
+  pure ()
+
+def jifElseK (c : CObj) (a b : GenM Unit) : GenM Unit := do
+  let p ← compare c false
+  a
+  let p1 ← target p false
+  let e ← elseEnter c p1
+  b
+  elseExit e
+
+/-- the condition is built when Python reaches the `with` statement -/
+def withCond (env : List VarLoc) (c : SCond) (k : CObj → GenM Unit) : GenM Unit := fun g =>
+  match elabC env c with
+  | .error e => .error e
+  | .ok co => k co g
+
+def emitS (env : List VarLoc) : SStmt → GenM Unit
+  | .skip => pure ()
+  | .set d e => emitStmt env (.set d e)
+  | .seq a b => do emitS env a; emitS env b
+  | .ifThen c body => withCond env c fun co => withThen co (emitS env body)
+  | .ifElse c body els => withCond env c fun co => withElse co (emitS env body) (emitS env els)
+  | .jif c a => withCond env c fun co => jifThen co (emitS env a)
+  | .jifElse c a b => withCond env c fun co => jifElseK co (emitS env a) (emitS env b)
+
+structure CProg where
+  owned : List Nat
+  vars : List VarDecl
+  body : SStmt
+deriving Repr, Inhabited
+
+def emitCProg (p : CProg) : Except AsmError (List Insn) :=
+  match emitS (layout p.vars) p.body { code := [], owners := p.owned, stack := 0 } with
+  | .ok (_, g) => .ok g.code
+  | .error e => .error e
 
 end Ebv.Gen
